@@ -51,6 +51,23 @@ PROPS = {
                      'byte strings are valid UTF-8 in generated inputs'],
         trusted_base=['coroutine control flow and kernel tick are modelled by hand (Model/Coroutines, Model/System) and tied by sysdiff'],
     ),
+    'C06': dict(
+        modules=['Resonate.Properties.C06'],
+        tie_filter=r'promise(Insert|Update)|callback|taskInsert|taskCompleteByRootId|shape|wiring|uniques',
+        harness=[sysdiff('sysdiff-crashes', ['CreatePromise', 'CreatePromiseAndTask', 'CompletePromise', 'CreateCallback', 'CreateSubscription', 'ReadPromise', 'ClaimTask', 'CompleteTask'],
+                         (25, 150), (600, 200), 'C01,C05,C08,C07', ['-routed', '50', '-fail', '15', '-crash', '6', '-smallcfg', '-known', 'F5'], (200, 150)),
+                 dict(bin='crashdiff', name='crashdiff', quick=['-rounds', '2', '-kills', '3'], thorough=['-rounds', '25', '-kills', '6'], search=['-rounds', '8', '-kills', '5'])],
+        rule=SYS_RULE + '; here 6% of the steps are a crash/restart (a new system.System and store object on the same sqlite file, volatile state dropped), so crashes fall before and after '
+             'store commits, between the steps of every coroutine and in the middle of sweeps, also repeatedly; the dump monitors C01 (nothing disappears, completed rows final), C05 (no '
+             'registration without its pending promise; a completion converted every registration), C08 (routed promise born with its task; completed promise has no live task) run on every '
+             'committed batch; crashdiff: the REAL `resonate serve` binary built from /repo, 4 concurrent HTTP clients (create / register / complete with idempotency keys), SIGKILL after a '
+             'random 20-620 ms of traffic, restart on the same file, repeatedly, finally SIGTERM with the default configuration: every write acknowledged with 2xx before a kill is read back '
+             'unchanged after every restart, the file left by every kill satisfies the all-or-nothing invariants, the server starts on it; non-trivial = acknowledged writes re-verified (counted)',
+        assumptions=['a committed sqlite transaction is durable and atomic at the process level (sqlite, WAL/journal); power loss / fsync are outside the model and the sandbox',
+                     'in-flight requests lose only their responses'],
+        trusted_base=['coroutines and kernel tick modelled by hand, tied by sysdiff; the crash step of the model (volatile state dropped, database kept) is tied by sysdiff in-process and sampled by crashdiff on the real binary',
+                      'crashdiff samples kill moments (no model comparison: wall-clock timing)'],
+    ),
     'C07': dict(
         modules=['Resonate.Properties.C07'],
         tie_filter=r'task|shape|wiring|uniques',
